@@ -510,8 +510,10 @@ Theorem F2_refuted :
     exists ttl, http_store_decision fx_none true (Some now) 0 now now = Some ttl /\
       cget Mem (now + secs 3600) 1 (cset Mem now 1 {| r_id := 7; r_exp := Some now |} ttl []) <> None.
 Proof.
-  exists (secs 1000), 0. vm_compute. splits; try reflexivity; try (intro; discriminate).
-  exists 0. split; [reflexivity | discriminate].
+  (* no vm_compute under the binder of [ttl]: normalising Z operations on a variable explodes *)
+  exists (secs 1000), 0.
+  split; [vm_compute; reflexivity|]. split; [lia|]. split; [vm_compute; reflexivity|].
+  exists 0. split; [vm_compute; reflexivity|]. vm_compute. discriminate.
 Qed.
 
 (** C10-F3: mechanism-level ttl 30 s, rule-level `cache_ttl: 0s`: still cached *)
